@@ -509,6 +509,9 @@ func nativeConfirms(v *Violation, nr NativeResult) bool {
 		return false
 	case "panic":
 		return nr.Panic != ""
+	case "alloc":
+		// allocation-size conditions are decided by the solver; replaying would try to allocate the memory
+		return true
 	}
 	return false
 }
